@@ -15,22 +15,26 @@ Theorem C18_statement : forall i o, spec_okb i o = true -> Spec i o.
 Proof. exact spec_okb_sound. Qed.
 Print Assumptions C18_statement.
 
-(* Exactly one sink per status call, named by the history: with one rule per key, the k-th call
-   status(e) (through StreamToQueue objects with codes via) reaches the sink of the add_rule made
-   before it for the first segment of the route code, otherwise the one for its test id,
-   otherwise the fallback, otherwise the call raises and nobody receives anything; the event is
-   unchanged except that a consuming rule removes exactly the first segment. *)
-Theorem C18_one_sink : forall i, wf i -> wf_distinct i -> forall k via e so,
+(* Exactly one sink per status call, named by the history - for EVERY rule set: keys may be re-mapped
+   (a second add_rule for the same route prefix / test id, with another or the same sink) and one sink
+   may serve several rules or be the fallback as well.  The k-th call status(e) (through StreamToQueue
+   objects with codes via) reaches the sink of the LATEST add_rule made before it for the first segment
+   of the route code (no add_rule for that prefix after it: prefix_rules l2 p = []) - so after a
+   re-mapping the new sink only -, otherwise the sink of the latest add_rule for its test id, otherwise
+   the fallback, otherwise the call raises and nobody receives anything; the event is unchanged except
+   that a consuming rule removes exactly the first segment. *)
+Theorem C18_one_sink : forall i, wf i -> forall k via e so,
   nth_error (ops i) k = Some (Status via e) -> nth_error (o_steps (model i)) k = Some so ->
   let past := firstn k (ops i) in
   let e0 := pushed via e in
   let n := n_sinks i in
   let no_prefix_rule := forall s p c ss, In (AddPrefix s p c ss) past -> first_seg (e_route e0) <> Some p in
   let no_id_rule := forall s ss, ~ In (AddId s (e_id e0) ss) past in
-  (forall s p c ss, In (AddPrefix s p c ss) past -> first_seg (e_route e0) = Some p ->
+  (forall l1 l2 s p c ss, past = l1 ++ AddPrefix s p c ss :: l2 -> prefix_rules l2 p = [] ->
+     first_seg (e_route e0) = Some p ->
      s_raised so = false
      /\ New_is n (only s (St (if c then set_route e0 (strip_first (e_route e0)) else e0))) (s_new so))
-  /\ (no_prefix_rule -> forall s ss, In (AddId s (e_id e0) ss) past ->
+  /\ (no_prefix_rule -> forall l1 l2 s ss, past = l1 ++ AddId s (e_id e0) ss :: l2 -> id_rules l2 (e_id e0) = [] ->
      s_raised so = false /\ New_is n (only s (St e0)) (s_new so))
   /\ (no_prefix_rule -> no_id_rule -> forall f, fb i = Some f ->
      s_raised so = false /\ New_is n (only f (St e0)) (s_new so))
@@ -75,13 +79,32 @@ Proof.
 Qed.
 Print Assumptions C18_strings.
 
-(* startTestRun / stopTestRun: for every history (whatever the order of add_rule, startTestRun and
-   stopTestRun), the start/stop calls sink s receives at call k are: one startTestRun (stopTestRun)
-   when the call is startTestRun (stopTestRun) and s was registered for them before k - as the
-   fallback with do_start_stop_run, or by an earlier add_rule(.., do_start_stop_run=True) -; one
-   startTestRun when the call is the add_rule that registers s and a run is in progress; nothing
-   in every other case.  wf_distinct: the sinks of different rules are distinct objects. *)
-Theorem C18_start_stop : forall i, wf i -> wf_distinct i -> forall k o so s,
+(* startTestRun / stopTestRun, for EVERY rule set and history (re-mapped keys, shared sinks, whatever the
+   order of add_rule, startTestRun and stopTestRun): the start/stop calls sink s receives at call k are one
+   startTestRun (stopTestRun) PER REGISTRATION of s made before k - as the fallback of a router built with
+   do_start_stop_run, or by an earlier add_rule(s, .., do_start_stop_run=True) - when the call is
+   startTestRun (stopTestRun); one startTestRun when the call is an add_rule that registers s and a run is
+   in progress; nothing in every other case.  In particular no add_rule - re-mapping or not - ever stops a
+   sink or takes a registration away: a sink whose rule was re-mapped keeps receiving start/stop, and a sink
+   is never stopped while a rule still routes to it other than by the caller's stopTestRun. *)
+Theorem C18_start_stop_count : forall i, wf i -> forall k o so s,
+  nth_error (ops i) k = Some o -> nth_error (o_steps (model i)) k = Some so -> s < n_sinks i ->
+  let past := firstn k (ops i) in
+  filter is_start_stop (nth s (s_new so) []) =
+    match o with
+    | Start => repeat StartRun (count s (registered i past))
+    | Stop => repeat StopRun (count s (registered i past))
+    | AddPrefix s' _ _ ss | AddId s' _ ss => if Nat.eqb s' s && ss && in_run past then [StartRun] else []
+    | Status _ _ => []
+    | AddRej _ _ _ => []
+    end.
+Proof. exact start_stop_count. Qed.
+Print Assumptions C18_start_stop_count.
+
+(* "once per run": for a sink that was asked to receive start/stop at most once (reg_once; it may serve any
+   number of rules, be the fallback as well, and its rules may be re-mapped) the above reads: exactly one
+   startTestRun (stopTestRun) at every startTestRun (stopTestRun) after its registration. *)
+Theorem C18_start_stop : forall i, wf i -> forall k o so s, reg_once i s ->
   nth_error (ops i) k = Some o -> nth_error (o_steps (model i)) k = Some so -> s < n_sinks i ->
   let past := firstn k (ops i) in
   filter is_start_stop (nth s (s_new so) []) =
@@ -99,8 +122,9 @@ Print Assumptions C18_start_stop.
    startTestRun/stopTestRun at all; the fallback of a router built with do_start_stop_run receives
    exactly the caller's starts and stops, in order; a sink registered by the k-th call receives
    startTestRun at once if a run is in progress and from then on exactly the caller's starts and
-   stops, in order (so one start and one stop per run, including the stop of the run it joined) *)
-Theorem C18_start_stop_log : forall i, wf i -> wf_distinct i -> forall s, s < n_sinks i ->
+   stops, in order (so one start and one stop per run, including the stop of the run it joined) -
+   whether or not its rule is re-mapped later and whatever other rules it serves *)
+Theorem C18_start_stop_log : forall i, wf i -> forall s, reg_once i s -> s < n_sinks i ->
   let log := ss_log s (o_steps (model i)) in
   (count s (registered i (ops i)) = 0 -> log = [])
   /\ (fb i = Some s -> fb_ss i = true -> log = flat_map ss_of_op (ops i))
@@ -108,6 +132,12 @@ Theorem C18_start_stop_log : forall i, wf i -> wf_distinct i -> forall s, s < n_
         log = (if in_run (firstn k (ops i)) then [StartRun] else []) ++ flat_map ss_of_op (skipn (S k) (ops i))).
 Proof. exact start_stop_log. Qed.
 Print Assumptions C18_start_stop_log.
+
+(* the earlier hypothesis (sinks of different rules and the fallback distinct, one rule per key) is a
+   special case *)
+Theorem C18_distinct_once : forall i, wf_distinct i -> forall s, reg_once i s.
+Proof. exact distinct_once. Qed.
+Print Assumptions C18_distinct_once.
 
 (* a rejected add_rule (ValueError / TypeError, whatever its sink, its do_start_stop_run and the point
    of the history) leaves no trace: the call raises, no sink receives anything, and every other call
@@ -134,6 +164,24 @@ Print Assumptions C18_registered.
 Theorem C18_obs_eqb : forall a b, obs_eqb a b = true <-> a = b.
 Proof. exact obs_eqb_spec. Qed.
 Print Assumptions C18_obs_eqb.
+
+(* non-vacuity of the re-mapping / shared-sink clauses: sink 1 serves prefix 0 and test id 1 and is registered
+   once; during a run prefix 0 is re-mapped to sink 2: sink 1 is NOT stopped, still gets the test-id events
+   and the caller's stopTestRun and the next run's start/stop; prefix-0 events go to sink 2 only *)
+Example C18_example_remap :
+  let e := Ev (Some 1) (Some 4) None true None None false None (Some [0; 3]) None in
+  let e' := Ev (Some 1) (Some 4) None true None None false None None None in
+  let i := {| n_sinks := 3; fb := None; fb_ss := false;
+              ops := [AddPrefix 1 0 false true; AddId 1 (Some 1) false; Start; Status [] e;
+                      AddPrefix 2 0 true true; Status [] e; Status [] e'; Stop; Start; Stop] |} in
+  wf i /\ reg_once i 1 /\ reg_once i 2 /\ ~ wf_distinct i
+  /\ map s_new (o_steps (model i))
+     = [ [[]; []; []]; [[]; []; []]; [[]; [StartRun]; []]; [[]; [St e]; []];
+         [[]; []; [StartRun]]; [[]; []; [St (set_route e (Some [3]))]]; [[]; [St e']; []];
+         [[]; [StopRun]; [StopRun]]; [[]; [StartRun]; [StartRun]]; [[]; [StopRun]; [StopRun]] ].
+Proof.
+  repeat split; try (vm_compute; reflexivity); try (vm_compute; lia).
+Qed.
 
 (* non-vacuity: a fallback registered for start/stop, an add_rule rejected during a run with
    do_start_stop_run and retried with the same sink (a consuming prefix rule, started once), a
